@@ -411,7 +411,7 @@ func c01SharedWrites(r *core.Report) {
 					}
 				}
 				sort.Strings(shared)
-				key := fmt.Sprintf("%s#errgroup(%s)", fn.Key, gobj.Name())
+				key := fmt.Sprintf("%s#errgroup(%s)", fn.Key, tokenOrName(fn, gobj))
 				r.Check(len(shared) == 0, rule, key, posP(r, lits[0].Pos()), fmt.Sprintf("the %d goroutines of this group assign no common captured variable", len(lits)),
 					"goroutines of the same errgroup assign the same captured variable: "+strings.Join(shared, "; ")+" - a failure stored by one can be overwritten with nil by a sibling before it is tested, so the group reports success although one task failed")
 			}
@@ -482,7 +482,7 @@ func c01WriterLifecycle(r *core.Report) {
 					if sig == nil || sig.Results().Len() == 0 || !core.IsErrorType(sig.Results().At(sig.Results().Len()-1).Type()) {
 						continue
 					}
-					key := fmt.Sprintf("%s#%s.%s@%d", fn.Key, w.obj.Name(), m, nIns+nSeal)
+					key := fmt.Sprintf("%s#%s.%s@%d", fn.Key, tokenOrName(fn, w.obj), m, nIns+nSeal)
 					handled := false
 					switch s := n.Ast.(type) {
 					case *ast.AssignStmt:
@@ -509,8 +509,8 @@ func c01WriterLifecycle(r *core.Report) {
 				}
 			}
 		}
-		r.Check(nIns > 0, rule, fmt.Sprintf("%s#%s-receives-inserts", f.Key, w.obj.Name()), posP(r, w.obj.Pos()), fmt.Sprintf("%d insert call(s) feed this writer", nIns), "no insert call feeds the writer created by "+w.ctor)
-		r.Check(nSeal > 0, rule, fmt.Sprintf("%s#%s-is-sealed", f.Key, w.obj.Name()), posP(r, w.obj.Pos()), "the writer is sealed / written out", "the writer created by "+w.ctor+" is never sealed or written out")
+		r.Check(nIns > 0, rule, fmt.Sprintf("%s#%s-receives-inserts", f.Key, tokenOrName(f, w.obj)), posP(r, w.obj.Pos()), fmt.Sprintf("%d insert call(s) feed this writer", nIns), "no insert call feeds the writer created by "+w.ctor)
+		r.Check(nSeal > 0, rule, fmt.Sprintf("%s#%s-is-sealed", f.Key, tokenOrName(f, w.obj)), posP(r, w.obj.Pos()), "the writer is sealed / written out", "the writer created by "+w.ctor+" is never sealed or written out")
 	}
 }
 
